@@ -6,19 +6,24 @@
 # the value compared in the 3rd, which admits read latencies 0..2), in every cycle in which the monitor says
 # "capture complete", so buffer corruption while idle is seen as well.
 #
-# Oracle (from the statement and the attribute documentation):
-#   * a trigger strobed in a cycle T in which `sampling` is low starts a capture; triggers while `sampling` is high are
-#     inert ("no trigger during capture disturbs it");
-#   * from T+1 until `complete` rises `sampling` must be high; `complete` must rise within depth+pretrigger+4 cycles
-#     (bound chosen by the harness) and not before the window lies in the past;
+# Oracle (from the statement only; the `sampling` output is observed but nothing is demanded of it - the statement does
+# not mention it, and e.g. raising it already in the trigger cycle is a legitimate implementation):
+#   * a trigger strobed while no capture is in progress (before the first capture, or after `complete` has been seen)
+#     starts a capture at T; triggers between T and the cycle in which `complete` rises are inert ("no trigger during
+#     capture disturbs it").  A trigger strobed in the very cycle Tc in which `complete` rises may be taken either way
+#     (the class takes it): the monitor then follows both hypotheses and a violation is an observation that no surviving
+#     hypothesis explains;
+#   * `complete` must rise within depth+pretrigger+8 cycles of T (bound chosen by the harness) and not before the
+#     window lies in the past;
 #   * the recorded window is depth consecutive inputs  input[T + c - pretrigger + n], n = 0..depth-1.  The statement
 #     fixes "delayed by the configured pre-trigger count" but not whether the first stored sample is taken in the
 #     trigger cycle or the one after (the class stores from T+1 because the trigger is registered): both c = 0 and
 #     c = 1 are admitted, as a candidate set that must stay consistent over all captures of a history;
-#   * while complete and until the next accepted trigger: `complete` stays high, `sampling` low, and reading back
-#     address n returns sample n of the window; before the first trigger both flags are low;
-#   * after a re-trigger a `complete` still high in T+1 is tolerated; from T+2 on a high `complete` is taken as the claim
-#     that the new capture is done and is judged as such (window in the past? read-back equal?).
+#   * while complete and until the next trigger: `complete` stays high and reading back address n returns sample n of
+#     the window; before the first trigger `complete` is low;
+#   * after a re-trigger a `complete` that is still high from the previous capture is tolerated for up to 3 cycles
+#     (until it first drops); after that a high `complete` is the claim that the new capture is done and is judged as
+#     such (window in the past? read-back equal?).
 from rtlmc.model import Design, Violation
 from rtlmc.explore import Spec
 
@@ -42,7 +47,7 @@ class IlaSpec(Spec):
         super().__init__(cfg, tier)
         self.w, self.depth, self.p = cfg["width"], cfg["depth"], cfg["pretrigger"]
         self._acts = [(v, t) for v in range(1 << self.w) for t in (0, 1)]
-        self.limit = self.depth + self.p + 4
+        self.limit = self.depth + self.p + 8
         self.time_budget = 600 if tier == "quick" else 3000     # safety net only; sized to finish in seconds
         self.max_states = 400_000 if tier == "quick" else 3_000_000
 
@@ -55,91 +60,119 @@ class IlaSpec(Spec):
         obs = dict(captured_sample=d.captured_sample, complete=d.complete, sampling=d.sampling)
         return Design(d, ins, obs)
 
-    # env = (mode, hist, rec, t, cset, wins, stale)
-    #   mode  0 = never captured, 1 = capturing, 2 = complete
+    # env = (hist, hyps)
     #   hist  the last `pretrigger` input values (oldest first)
-    #   rec   (capturing) inputs from cycle T-pretrigger on, truncated to depth+1 entries;  t = cycles since T
-    #   cset  admitted conventions c;  wins = ((c, window), ...) once complete
-    #   stale (capturing) 1 if `complete` was still high from the previous capture when the trigger came
+    #   hyps  tuple of monitor hypotheses (mode, rec, t, cset, wins, stale):
+    #     mode  0 = never captured, 1 = capturing, 2 = complete
+    #     rec   (capturing) inputs from cycle T-pretrigger on, truncated to depth+1 entries;  t = cycles since T
+    #     cset  admitted conventions c;  wins = ((c, window), ...) once complete
+    #     stale (capturing) 1 while `complete` is still high from the previous capture
+    STALE_GRACE = 3
+
     def env0(self):
-        return (0, (0,) * self.p, (), 0, (0, 1), (), 0)
+        return ((0,) * self.p, ((0, (), 0, (0, 1), (), 0),))
 
     def actions(self, env):
         return self._acts
 
     def assumptions(self):
-        return ["a trigger counts as accepted iff `sampling` is low in the cycle it is strobed (the class's own status output)",
+        return ["a trigger in the cycle in which `complete` rises may or may not start a new capture (both followed); before that cycle triggers are inert, after it they start a capture",
                 "convention left open by the statement: first stored sample taken in the trigger cycle (c=0) or the following one (c=1); consistent per history",
                 "read-back holds each address for 3 cycles with trigger low and compares in the 3rd (admits read latency 0..2)",
-                "liveness bound chosen by the harness: complete within depth+pretrigger+4 cycles of the trigger",
+                "liveness bound chosen by the harness: complete within depth+pretrigger+8 cycles of the trigger",
+                "a `complete` left over from the previous capture may stay high for up to 3 cycles after a re-trigger",
+                "nothing is demanded of the `sampling` output (not part of the statement)",
                 "inputs before reset release are 0 (pre-trigger history of the very first cycles)"]
 
-    def _readback(self, cur, cset, wins):
+    def _readback(self, cur):
         f = cur.fork()
         got = []
         for n in range(self.depth):
             f.step(addr=n); f.step(addr=n)
             got.append(f.step(addr=n).captured_sample)
-        got = tuple(got)
-        keep = tuple((c, w) for c, w in wins if w == got)
-        if not keep:
-            raise Violation("readback-mismatch", dict(read=list(got), expected_by_convention={str(c): list(w) for c, w in wins}))
-        self.cover["readback"] += 1
-        return tuple(c for c, _ in keep), keep
+        return tuple(got)
+
+    class _Fail(Exception):
+        def __init__(self, rule, detail=None):
+            self.rule, self.detail = rule, detail
+
+    def _hyp_step(self, h, hist, inp, trig, o, rb):
+        """one cycle of one hypothesis; returns its successors; rb() = lazily computed read-back of the reached state"""
+        Fail = self._Fail
+        mode, rec, t, cset, wins, stale = h
+        p, depth = self.p, self.depth
+
+        def checked_done(cset, wins):
+            got = rb()
+            keep = tuple((c, w) for c, w in wins if w == got)
+            if not keep:
+                raise Fail("readback-mismatch", dict(read=list(got), expected_by_convention={str(c): list(w) for c, w in wins}))
+            self.cover["readback"] += 1
+            return (2, (), 0, tuple(c for c, _ in keep), keep, 0)
+
+        if mode == 0:
+            if o.complete: raise Fail("complete-before-any-capture")
+            if trig:
+                self.cover["capture_started"] += 1
+                return [(1, hist + (inp,), 0, cset, (), 0)]
+            return [h]
+        if mode == 2:
+            if not o.complete: raise Fail("complete-dropped")
+            if trig:
+                self.cover["retrigger"] += 1
+                self.cover["capture_started"] += 1
+                return [(1, hist + (inp,), 0, cset, (), 1)]
+            return [checked_done(cset, wins)]
+        # capturing
+        t += 1
+        if len(rec) < depth + 1: rec = rec + (inp,)
+        if stale and not o.complete: stale = 0
+        if stale and t > self.STALE_GRACE: stale = 0           # from now on a high `complete` is a completion claim
+        if stale or not o.complete:
+            if trig: self.cover["trigger_during_capture"] += 1
+            if o.sampling: self.cover["sampling_high_during_capture"] += 1
+            if t > self.limit:
+                raise Fail("complete-missing", dict(cycles_since_trigger=t))
+            return [(1, rec, t, cset, (), stale)]
+        # window sample n (convention c) = rec[c+n]; rec[i] is the input of cycle T-p+i; the last sample must be the input
+        # of a cycle before this one (T+t)
+        ok = tuple(c for c in cset if c + depth - 1 <= p + t - 1 and c + depth <= len(rec))
+        if not ok:
+            raise Fail("complete-early", dict(cycles_since_trigger=t, depth=depth, pretrigger=p))
+        wins = tuple((c, rec[c:c + depth]) for c in ok)
+        self.cover["complete"] += 1
+        if not trig:
+            return [checked_done(ok, wins)]
+        # trigger in the cycle in which complete rises: accepted (new capture from this cycle) or not (still complete)
+        self.cover["retrigger_at_completion"] += 1
+        succ = [(1, hist + (inp,), 0, ok, (), 1)]
+        try:
+            succ.append(checked_done(ok, wins))
+        except Fail:
+            pass
+        return succ
 
     def apply(self, cur, env, a):
         inp, trig = a
-        mode, hist, rec, t, cset, wins, stale = env
+        hist, hyps = env
         o = cur.step(sig=inp, trigger=trig, addr=0)
-        p, depth = self.p, self.depth
-        start = False
-        if mode != 1:
-            if o.sampling:
-                raise Violation("sampling-while-idle", dict(after_capture=bool(mode)))
-            if mode == 0 and o.complete:
-                raise Violation("complete-before-any-capture", None)
-            if mode == 2 and not o.complete:
-                raise Violation("complete-dropped", None)
-            if trig:
-                start = True
-                stale = o.complete
-                if mode == 2: self.cover["retrigger"] += 1
-        else:
-            t += 1
-            if len(rec) < depth + 1: rec = rec + (inp,)
-            done_now = bool(o.complete)
-            if stale and t <= 1 and done_now:
-                done_now = False                 # grace: the previous capture's flag may still be visible in T+1
-            if not done_now:
-                if not o.sampling:
-                    raise Violation("not-sampling-during-capture", dict(cycles_since_trigger=t))
-                if trig: self.cover["trigger_during_capture"] += 1
-                if t > self.limit:
-                    raise Violation("complete-missing", dict(cycles_since_trigger=t))
-            else:
-                # window sample n (convention c) = rec[c+n]; rec[i] is the input of cycle T-p+i; the last sample must be
-                # the input of a cycle before this one (T+t)
-                ok = tuple(c for c in cset if c + depth - 1 <= p + t - 1 and c + depth <= len(rec))
-                if not ok:
-                    raise Violation("complete-early", dict(cycles_since_trigger=t, depth=depth, pretrigger=p))
-                cset = ok
-                wins = tuple((c, rec[c:c + depth]) for c in cset)
-                mode, rec, t, stale = 2, (), 0, 0
-                self.cover["complete"] += 1
-                if o.sampling:
-                    if trig: self.cover["trigger_during_capture"] += 1
-                elif trig:
-                    start = True
-                    stale = 1
-                    self.cover["retrigger_at_completion"] += 1
-        if mode == 2 and not start:
-            cset, wins = self._readback(cur, cset, wins)
-        if start:
-            mode, rec, t = 1, hist + (inp,), 0
-            self.cover["capture_started"] += 1
-        if p: hist = (hist + (inp,))[-p:]
-        self.outcomes.add((mode, o.sampling, o.complete, cset))
-        return (mode, hist, rec, t, cset, wins if mode == 2 else (), stale)
+        cache = []
+        def rb():
+            if not cache: cache.append(self._readback(cur))
+            return cache[0]
+        nxt, first_fail = [], None
+        for h in hyps:
+            try:
+                for h2 in self._hyp_step(h, hist, inp, trig, o, rb):
+                    if h2 not in nxt: nxt.append(h2)
+            except self._Fail as f:
+                if first_fail is None: first_fail = f
+        if not nxt:
+            raise Violation(first_fail.rule, first_fail.detail)
+        if len(nxt) > 1: self.cover["two_hypotheses"] += 1
+        if self.p: hist = (hist + (inp,))[-self.p:]
+        self.outcomes.add((tuple(h[0] for h in nxt), o.sampling, o.complete))
+        return (hist, tuple(nxt))
 
     def goals(self):
         return ["capture_started", "complete", "readback", "retrigger", "trigger_during_capture", "retrigger_at_completion"]
